@@ -22,6 +22,17 @@ CHECKS = {
             "live object must render like an object rebuilt from its own chain of calls on fresh objects; all six contexts inline and parameterised at the "
             "end of each history. Builder-decorated methods are discovered from the live package and uncovered ones are listed in the evidence.",
             "Trusted: the interpreter pbt/prog.py and the argument menus in pbt/hist.py; sampling, not exhaustive."),
+    "C15": ("Hypothesis-generated object graphs x {copy, deepcopy, pickle 2-5} x suffix of builder calls on either side; snapshot equality and linear-twin oracle",
+            "Every family of object (builders of six classes, set operations, DDL, tables with schema chains and temporal clauses, Schema, Database, "
+            "AliasedQuery, NOT wrappers with delegating calls, terms) is duplicated by each mechanism; the duplicate must be of the same type and render "
+            "identically in all six contexts inline and parameterised, and builder calls on one side must leave the other side and both originals unchanged; "
+            "deepcopy/pickle graphs must share no mutable container.",
+            "Trusted: pbt/prog.py, pbt/hist.py menus; CPython 3.12 copy/pickle protocol."),
+    "C02": ("Hypothesis-generated render histories with structural-snapshot oracle, cross-process re-rendering under different PYTHONHASHSEED, thread stress, re-entrancy probe",
+            "Mutation is detected directly by a __dict__ walk before/after each render operation; repeatability by comparing the k-th result with the first; "
+            "process independence by child interpreters with hash seeds 0..3 (0..7 thorough); schedules by 8-thread stress and by a harness-owned term that "
+            "re-enters a render of the enclosing object from inside get_sql at seven clause positions x six classes.",
+            "Thread interleavings are sampled, not enumerated (stated limit of the technique); re-entrancy is owned at term granularity only."),
 }
 
 NOT_BUILT = {}
